@@ -47,6 +47,15 @@ def plan(tier, seed, kf_ids):
                 if w <= 16 or (w == 32 and not q):
                     jobs.append(mk("c18_seq_" + tg, "seq", t, "Wrapping<%s>: every 3-operation program over {+,-=,*} equals the same sequence "
                                    "of wrapping_* calls" % al, al, unwind=6, timeout=1800, bounds="all operands, all 27 operator sequences"))
+    # product / sum conventions on layouts that cannot represent 1 (no integer bit; one signed integer bit)
+    for s, w in (("U", 8), ("I", 8), ("I", 16), ("U", 16)):
+        for f in ((w, w - 1) if s == "I" else (w,)):
+            t, al, tg = c.ty(s, w, f), c.alias(s, w, f), c.tag(s, w, f)
+            if not any(j.name == "c18_mul2_" + tg for j in jobs):
+                jobs.append(mk("c18_mul2_" + tg, "mul", "%s, 2" % t, "Wrapping<%s>: product of 3 / empty product equal repeated wrapping_mul "
+                               "(a layout that cannot represent 1)" % al, al, unwind=6))
+            if not any(j.name == "c18_mul0_" + tg for j in jobs):
+                jobs.append(mk("c18_mul0_" + tg, "mul", "%s, 0" % t, "Wrapping<%s>: * and *= equal the exact product mod 2^W" % al, al, unwind=6))
     return {
         "feature": "c18",
         "jobs": jobs,
